@@ -77,7 +77,22 @@ def run(ctx):
         except Exception as ex:
             events.append({"fn": "simplify", "word": w, "out": {"err": type(ex).__name__, "list": [], "index": 0}})
     t_gate = np.array([[1, 0], [0, np.exp(1j * np.pi / 4)]])
-    for bad in (t_gate, np.array([[1, 0], [0, 0.5]]), np.array([[1, 1], [1, 1]]) / 2, 2 * np.eye(2) @ t_gate):
+    bads = [t_gate, np.array([[1, 0], [0, 0.5]]), np.array([[1, 1], [1, 1]]) / 2, 2 * np.eye(2) @ t_gate]
+    # near misses of every library member M (the look-ups above have been made, so anything the library remembers about
+    # them is in place): scaled, sheared and rank-one matrices whose overlap tr(M^dagger V) with M still has modulus 2,
+    # and unitaries a fraction of a degree away from M
+    H_ = np.array([[1, 1], [1, -1]]) / np.sqrt(2)
+    S_ = np.diag([1, 1j])
+    GM = {"Identity": np.eye(2), "Hadamard": H_, "Phase": S_, "PhaseDagger": S_.conj().T,
+          "SigmaX": np.array([[0, 1], [1, 0]]), "SigmaY": np.array([[0, -1j], [1j, 0]]), "SigmaZ": np.diag([1, -1])}
+    for w in names:
+        m = np.eye(2, dtype=complex)
+        for g in w:
+            m = m @ GM[g]
+        for v in (2 * m, m @ np.array([[1, 1], [0, 1]]), m @ np.diag([2, 0]), np.sqrt(2) * H_ @ m if w == names[0] else 3 * m,
+                  m @ np.diag([1, np.exp(1j * 0.006)]), m @ np.diag([1, np.exp(1j * 0.02)])):
+            bads.append(np.asarray(v, dtype=complex))
+    for bad in bads:
         try:
             ops.find_local_clifford_by_matrix(bad)
             events.append({"fn": "reject", "raised": False})
